@@ -9,6 +9,7 @@ CONSTANTS
   Secrets <- S12
   Questions <- Q01
   AllowEnd = FALSE
+  MaxRequery = 0
 INVARIANTS EmitWitness
 VIEW View
 CHECK_DEADLOCK FALSE
